@@ -277,3 +277,11 @@ Definition le32 (x : Z) : list Z :=
 Definition original_marshal (metric_id : Z) (otv : Z -> list Z) : list Z :=
   let n := tags_count otv (Z.to_nat (max_tags - 1)) in
   le32 metric_id ++ [Z.of_nat n] ++ flat_map (fun k => otv (Z.of_nat k) ++ [0]) (seq 0 n).
+
+(* OriginalHash(scratch): `scratch = h.OriginalMarshalAppend(scratch[:0])`, then xxh3 over the result. The scratch is
+   the per-worker buffer reused across events (it holds the bytes of whatever used it last, e.g. the mapped key
+   marshalled by tags_hash sharding). original_marshal_append is OriginalMarshalAppend(buffer). *)
+Definition original_marshal_append (buffer : list Z) (metric_id : Z) (otv : Z -> list Z) : list Z :=
+  buffer ++ original_marshal metric_id otv.
+Definition original_hash_bytes (scratch : list Z) (metric_id : Z) (otv : Z -> list Z) : list Z :=
+  original_marshal_append (firstn 0 scratch) metric_id otv.
